@@ -332,60 +332,22 @@ fn run(case: &Case, out: &mut Out) {
                 tls_settle(t, out, "tlswritev");
             }
             "h1rt" => {
-                // h1rt <kind 0 cl | 1 chunked | 2 close-delimited> <cut or -1> <seed> S <segment sizes>.. C <chunk sizes>..
+                // h1rt <kind 0 cl | 1 chunked | 2 close-delimited> <whole> <head len> <content-length> <input bytes> S <segment sizes>..
                 use sozu_lib::protocol::http::editor::HttpContext;
                 let kind = a[0].n();
-                let cut = a[1].n();
-                let seed = a[2].n() as u64;
-                let (mut segs, mut cs, mut mode) = (vec![], vec![], 0);
-                for t in &a[3..] {
+                let whole = a[1].n() != 0;
+                let input_owned: Vec<u8> = a[4].b().to_vec();
+                let mut segs: Vec<usize> = vec![];
+                let mut mode = 0;
+                for t in &a[5..] {
                     match t {
                         Tok::S(m) if m == "S" => mode = 1,
-                        Tok::S(m) if m == "C" => mode = 2,
                         Tok::N(n) if mode == 1 => segs.push((*n as usize).max(1)),
-                        Tok::N(n) if mode == 2 => cs.push(*n as usize),
                         _ => {}
                     }
                 }
-                let chunks: Vec<Vec<u8>> = cs.iter().enumerate().map(|(i, n)| pattern(*n, seed + i as u64)).collect();
-                let body: Vec<u8> = chunks.concat();
-                let mut msg: Vec<u8> = vec![];
-                // layout: data[i] = true for body bytes
-                let mut is_data: Vec<bool> = vec![];
-                let push = |m: &mut Vec<u8>, d: &mut Vec<bool>, b: &[u8], data: bool| {
-                    m.extend_from_slice(b);
-                    d.extend(std::iter::repeat(data).take(b.len()));
-                };
-                match kind {
-                    0 => {
-                        push(&mut msg, &mut is_data, format!("HTTP/1.1 200 OK\r\nContent-Length: {}\r\nX-K: v\r\n\r\n", body.len()).as_bytes(), false);
-                        push(&mut msg, &mut is_data, &body, true);
-                    }
-                    1 | 3 => {
-                        push(&mut msg, &mut is_data, b"HTTP/1.1 200 OK\r\nTransfer-Encoding: chunked\r\nTrailer: X-T\r\n\r\n", false);
-                        for (i, c) in chunks.iter().enumerate() {
-                            if c.is_empty() {
-                                continue; // a zero-size chunk would be the terminator
-                            }
-                            let ext = if kind == 3 && i % 2 == 1 { ";name=value" } else { "" };
-                            push(&mut msg, &mut is_data, format!("{:x}{ext}\r\n", c.len()).as_bytes(), false);
-                            push(&mut msg, &mut is_data, c, true);
-                            push(&mut msg, &mut is_data, b"\r\n", false);
-                        }
-                        push(&mut msg, &mut is_data, b"0\r\n", false);
-                        if seed % 2 == 1 {
-                            push(&mut msg, &mut is_data, b"X-T: done\r\n", false);
-                        }
-                        push(&mut msg, &mut is_data, b"\r\n", false);
-                    }
-                    _ => {
-                        push(&mut msg, &mut is_data, b"HTTP/1.1 200 OK\r\nConnection: close\r\n\r\n", false);
-                        push(&mut msg, &mut is_data, &body, true);
-                    }
-                }
-                let whole = cut < 0 || cut as usize >= msg.len();
-                let input = if whole { &msg[..] } else { &msg[..cut as usize] };
-                let want_body: Vec<u8> = input.iter().zip(is_data.iter()).filter(|(_, d)| **d).map(|(b, _)| *b).collect();
+                let cut = if whole { -1i128 } else { input_owned.len() as i128 };
+                let input = &input_owned[..];
                 // the production objects: pool buffer, Kawa<Checkout>, HttpContext as parser callbacks
                 let pool = std::rc::Rc::new(std::cell::RefCell::new(sozu_lib::pool::Pool::with_capacity(1, 2, 16_393)));
                 let buffer = pool.borrow_mut().checkout().expect("checkout");
@@ -437,7 +399,7 @@ fn run(case: &Case, out: &mut Out) {
                 if stuck {
                     out.viol("h1-stuck", "kawa storage full with unparsed input and nothing to flush");
                 }
-                let eof_terminated = whole && kind == 2 && !kawa.is_error();
+                let eof_terminated = whole && kind == 2 && !kawa.is_error() && kawa.is_main_phase();
                 if eof_terminated && !kawa.is_terminated() {
                     // mux/h1.rs terminate_close_delimited on a graceful EOF
                     kawa.push_block(kawa::Block::Flags(kawa::Flags { end_body: true, end_chunk: false, end_header: false, end_stream: true }));
@@ -454,20 +416,27 @@ fn run(case: &Case, out: &mut Out) {
                     }
                 };
                 if kawa.is_error() {
-                    out.obs(&[tn(0), tbool(false), tbool(false), tbool(true)]);
+                    out.obs(&[tb(&[]), tbool(false), tbool(false), tbool(true)]);
                 } else {
-                    out.obs(&[tn(got.len()), tbool(complete), tbool(kawa.is_terminated()), tbool(false)]);
+                    out.obs(&[tb(&got), tbool(complete), tbool(kawa.is_terminated()), tbool(false)]);
                 }
+                // the property's own oracle: decode the INPUT with the same strict reader
+                let ext = input.windows(1).len() > 0 && kind == 1 && String::from_utf8_lossy(input).contains(";name=value\r\n");
                 if kawa.is_error() {
-                    let class = if kind == 3 { "h1-chunk-ext" } else { "h1-parse-error" };
+                    let class = if ext { "h1-chunk-ext" } else { "h1-parse-error" };
                     out.viol(class, &format!("kind {kind}: kawa rejected a well-formed response (cut {cut})"));
                 } else {
-                    if got != want_body {
-                        let i = got.iter().zip(want_body.iter()).position(|(x, y)| x != y).unwrap_or(got.len().min(want_body.len()));
-                        out.viol("h1-body", &format!("kind {kind} cut {cut}: body out ({} bytes) differs from body in ({} bytes) at offset {i}", got.len(), want_body.len()));
-                    }
-                    if complete != whole {
-                        out.viol("h1-terminator", &format!("kind {kind} cut {cut}: output complete={complete} but input terminated={whole}"));
+                    match read_h1(input, whole && kind == 2) {
+                        Ok((want_body, want_complete)) => {
+                            if got != want_body {
+                                let i = got.iter().zip(want_body.iter()).position(|(x, y)| x != y).unwrap_or(got.len().min(want_body.len()));
+                                out.viol("h1-body", &format!("kind {kind} cut {cut}: body out ({} bytes) differs from body in ({} bytes) at offset {i}", got.len(), want_body.len()));
+                            }
+                            if complete != want_complete {
+                                out.viol("h1-terminator", &format!("kind {kind} cut {cut}: output complete={complete} but input complete={want_complete}"));
+                            }
+                        }
+                        Err(e) => out.note(&format!("invalid-case: the generated input is not a message: {e}")),
                     }
                 }
             }
